@@ -387,6 +387,26 @@ def check(case):
                 e[k] = e.get(k, Fraction(0)) + C.frac(b["w"])
             if wmap(got.ballots) != e:
                 out.fail(nm, "weights_per_ranking", f"got {wmap(got.ballots)}, expected {e}")
+    # add_missing_cands on ballots that repeat candidates (raw loader form)
+    if has_ranking and len(has_ranking) == len(lb):
+        toks = sorted({("blank" if p[0] is None else p[0]) for b in lb for p in b["r"]}) + ["extra1", "extra2"][: case["trunc"] - 1]
+        lb2 = [{"r": [[("blank" if p[0] is None else p[0])] for p in b["r"]], "w": b["w"]} for b in lb]
+        got, exc, _ = E.call(U.add_missing_cands, C.mk_profile(lb2, toks))
+        if exc is not None:
+            out.fail("add_missing_cands_repeats", type(exc).__name__, repr(exc))
+        else:
+            em = {}
+            for b in lb2:
+                listed = {p[0] for p in b["r"]}
+                miss = sorted(c for c in toks if c not in listed)
+                r = [list(p) for p in b["r"]] + ([miss] if miss else [])
+                em[_key(r)] = em.get(_key(r), Fraction(0)) + C.frac(b["w"])
+            gm = {}
+            for b in got.ballots:
+                k = tuple(tuple(sorted(str(c) for c in s)) for s in b.ranking)
+                gm[k] = gm.get(k, Fraction(0)) + b.weight
+            if gm != em:
+                out.fail("add_missing_cands_repeats", "weights_per_ranking", f"candidates {toks}: got {gm}, expected {em}")
     # remove_empty_ballots
     has_blank = any(p[0] is None for b in lb for p in (b["r"] or []))
     for keep in (case["keep_candidates"] and not has_blank,):
